@@ -65,6 +65,16 @@ func genConfig(t *rapid.T) Config {
 	}
 	cfg.Rerun = Chance(t, "rerun?", 50)
 	cfg.Upgrade = os.Getenv("VERIF_OLDART") != "" && (Chance(t, "upgrade?", 25) || os.Getenv("VERIF_D_UPGRADE") != "")
+	// the amount the fund helper has to split: around multiples of n, tiny,
+	// prime-ish and the whole supply
+	if Chance(t, "neo?", 70) {
+		n64 := int64(cfg.N)
+		neos := []int64{1, n64 - 1, n64, n64 + 1, 2*n64 - 1, 7, 100, 1001, 99_999_989, 100_000_000 - n64 + 1, 100_000_000 - 1}
+		cfg.NEO = neos[Pick(t, "neo", len(neos))]
+		if cfg.NEO <= 0 {
+			cfg.NEO = 1
+		}
+	}
 	cfg.Liveness = 1000
 	cfg.Bootstrap = 500
 	return cfg
